@@ -127,6 +127,18 @@ func scenarioC08(c *Ctx) {
 		}
 		cases = append(cases, HistCase{Kind: "duplicates-junk", User: me, Items: dj, Check: check("duplicates, junk and mutated copies")})
 	}
+	// (3b) a broadcast of round B whose entries NAME round A (the field is sender-controlled): it
+	// belongs to round B's sub-log and must not touch what the node holds for round A
+	{
+		var foreign []map[string]interface{}
+		for _, t := range tasks {
+			foreign = append(foreign, map[string]interface{}{"File": t.File, "BatchID": "batch-A", "MessageID": t.MessageID, "SrcPayload": t.Payload,
+				"Signature": []byte("not-a-signature"), "DKGRoundID": rA, "Username": w.Users[2]})
+		}
+		items := append(append([]Item{}, hA...), hB...)
+		items = append(items, w.Msg(rB, "signature_reconstructed", foreign, w.Users[2], "", w.Users[2], NOWMARK, "broadcast-naming-another-round"))
+		cases = append(cases, HistCase{Kind: "broadcast-naming-another-round", User: me, Items: items, Check: check("a broadcast of another round whose entries name this round")})
+	}
 	cases = append(cases, reinitCases(c, w, "C08")...)
 	runCases(c, cases)
 
@@ -150,15 +162,20 @@ func scenarioC08(c *Ctx) {
 	pe := e.PollNode(ctx)
 	done := make(chan error, 1)
 	go func() { done <- pe.Poll() }()
-	deadline := time.Now().Add(20 * time.Second)
-	for time.Now().Before(deadline) {
+	// wait until the loop has consumed the whole board, its own broadcast included (the board grows
+	// while it runs); generous deadline: a slow machine must not look like a different state
+	deadline := time.Now().Add(60 * time.Second)
+	stable := 0
+	for time.Now().Before(deadline) && stable < 3 {
 		off, _ := pe.GetStateOffset()
-		if off >= uint64(len(msgs)) {
-			break
+		onBoard, _ := e.Board.GetMessages(0)
+		if off >= uint64(len(msgs)) && off >= uint64(len(onBoard)) {
+			stable++
+		} else {
+			stable = 0
 		}
-		time.Sleep(100 * time.Millisecond)
+		time.Sleep(400 * time.Millisecond)
 	}
-	time.Sleep(1200 * time.Millisecond) // let the tick that consumed the node's own broadcast finish
 	cancel()
 	<-done
 	got := roundProj(e.Snapshot(), rA)
